@@ -17,5 +17,16 @@ echo "== suite with patch"
 git clean -fdq   # remove the demo so that the suite is the unedited one
 for m in $(cat /w/out/gomods.txt); do (cd $W/$m && go test -vet=off -count=1 -timeout 25m ./... 2>&1); done > $O/suite-patch.log
 echo "ok-pkgs=$(grep -c '^ok' $O/suite-patch.log) fail-lines=$(grep -cE '^(FAIL|--- FAIL|panic)' $O/suite-patch.log)"
+# timing-based tests (e.g. issue_test TestPretouchSynteaRoot compares two wall-clock durations) flake on a
+# loaded machine: re-run each failed top-level test alone, up to 3 times
+for t in $(grep -E '^--- FAIL: ' $O/suite-patch.log | awk '{print $3}' | cut -d/ -f1 | sort -u); do
+  okk=no
+  for m in $(cat /w/out/gomods.txt); do
+    for k in 1 2 3; do
+      if (cd $W/$m && go test -vet=off -count=1 -run "^$t\$" ./... 2>&1 | grep -q "^--- FAIL"); then :; else okk=yes; fi
+    done
+  done
+  echo "retry $t alone: pass-in-some-run=$okk"
+done
 git checkout -q -- . ; git clean -fdq
 } > $O/confirm.txt 2>&1
